@@ -326,3 +326,14 @@ RFC5114_2_3_G = int(
     "B3353BBB64E0EC377FD028370DF92B52C7891428CDC67EB6184B523D1DB246C32F63078490F00EF8D647D148D47954515E2327CFEF98C582664B4C0F6CC41659", 16)
 RFC5114_2_3_Q = int("8CF83642A709A097B447997640129DA299B1A47D1EB3750BA308B0FE64F5FBD3", 16)
 assert pow(RFC5114_2_3_G, RFC5114_2_3_Q, RFC5114_2_3_P) == 1 and (RFC5114_2_3_P - 1) % RFC5114_2_3_Q == 0 and RFC5114_2_3_P.bit_length() == 2048
+
+
+def utf8_of(cp):
+    """RFC 3629 encoding of one code point (int or solver variable; forks on the length class); surrogates are the caller's business"""
+    if cp < 0x80:
+        return _b([cp])
+    if cp < 0x800:
+        return _b([0xC0 | (cp >> 6), 0x80 | (cp & 0x3F)])
+    if cp < 0x10000:
+        return _b([0xE0 | (cp >> 12), 0x80 | ((cp >> 6) & 0x3F), 0x80 | (cp & 0x3F)])
+    return _b([0xF0 | (cp >> 18), 0x80 | ((cp >> 12) & 0x3F), 0x80 | ((cp >> 6) & 0x3F), 0x80 | (cp & 0x3F)])
